@@ -27,6 +27,9 @@ FIRST = {
     "C13-3": "caught (replay)", "C14-3": "missed",
     "C15-3": "missed", "C16-3": "broken correspondence, no-failing-input-found", "C17-3": "caught (replay)", "C18-3": "missed",
     "C19-3": "missed", "C20-3": "caught (replay)",
+    # round 4
+    "C01-4": "missed", "C02-4": "caught (replay)", "C03-4": "missed", "C04-4": "missed", "C05-4": "caught (replay)", "C06-4": "caught (replay)",
+    "C07-4": "missed", "C08-3": "missed", "C09-4": "caught (replay)", "C10-4": "missed",
 }
 
 
